@@ -13,7 +13,9 @@ REPO = '/repo'
 
 def scratch():
     d = tempfile.mkdtemp(prefix='yv-repo-')
-    subprocess.check_call(['rsync', '-a', '--exclude', 'target', REPO + '/', d + '/'])
+    rc = subprocess.call(['rsync', '-a', '--exclude', 'target', '--exclude', '.git/worktrees', REPO + '/', d + '/'])
+    if rc not in (0, 24):      # 24: files vanished while copying (another worktree's lock file)
+        raise RuntimeError('rsync failed: %d' % rc)
     return d
 
 
